@@ -157,6 +157,33 @@ def gen_cases(tier, rng):
         # (the lines without an inverted argument carry no expectation: model and implementation have to agree)
         cases.append('H:f=0 arg:f:b0:init=0 arg:n,number:i0: arg:l:vi0:multi %s%s'
                      % (A.argv_tok(w), ' exp:reject mut:inversion' if exp == 'reject' else ''))
+    # pattern checks (outside the model; ECMAScript regular expressions that mean the same in every dialect): the
+    # WHOLE value has to match
+    for slot, pat, good, bad in (('s0', '[A-Z][a-z]+', ['Peter', 'Ab'], ['Peter2', 'xPeter', 'Peter,Paul', 'peter', 'P', '']),
+                                 ('i0', '[0-9]{2}', ['12', '99'], ['123', '4711', '1', '-12']),
+                                 ('vs0', '[a-z]{3}', ['abc', 'abc,def'], ['abc,defg', 'abcd', 'ab', 'abc,de', 'xabc'])):
+        for v in good + bad:
+            if v == '':
+                continue
+            ok = v in good
+            if slot == 's0':
+                exp = 's0=s' + A.hx(v)
+            elif slot == 'i0':
+                exp = 'i0=' + v
+            else:
+                exp = 'vs0=[' + ','.join('s' + A.hx(x) for x in v.split(',')) + ']'
+            for w in (['-p', v], ['--pat=' + v]):
+                cases.append('H:f=0 arg:p,pat:%s:chk=pattern~%s %s exp:%s mut:%s'
+                             % (slot, A.hx(pat), A.argv_tok(w), exp if ok else 'reject', 'none' if ok else 'bad-value'))
+    # the end-of-line cardinality check looks at the number of values given, whether or not the destination counts
+    # as "has a value" afterwards: a tuple given too few values, a vector cleared by a use without value
+    for w, exp in ((['-t', '1,x,3'], 'b0=0;ti0=(1,s78,3)'), (['-t', '1,x'], 'reject'), (['-t', '7'], 'reject'), (['-t', '1', '-t', 'x'], 'reject'),
+                   (['-t', '1', '-t', 'x', '-t', '3'], 'b0=0;ti0=(1,s78,3)'), (['-f'], 'b0=1;ti0=(0,s-,0)'), (['-t', '1,x,3,4'], 'reject')):
+        cases.append('H:f=0 arg:t:ti0: arg:f:b0:init=0 %s exp:%s mut:%s' % (A.argv_tok(w), exp, 'cardinality' if exp == 'reject' else 'none'))
+    for w, exp in ((['-v'], 'reject'), (['-v', '-v'], 'vi0=[]'), (['-v', '5'], 'reject'), (['-v', '5', '-v', '6'], 'vi0=[5,6]'), (['-v', '5,6'], 'vi0=[5,6]'),
+                   (['-v', '5,6,7'], 'reject')):
+        cases.append('H:f=0 arg:v:vi0:clear/vm=opt/card=exact~2/init=1~2 %s exp:%s mut:%s'
+                     % (A.argv_tok(w), exp, 'cardinality' if exp == 'reject' else 'none'))
     # nothing on the command line: the end-of-line checks still run
     cases.append('H:f=0 arg:m:i0:man arg:x:b0:init=0 argv:- exp:reject mut:drop-mandatory')
     cases.append('H:f=0 arg:l:b0:init=0 arg:m:b1:init=0 con:one_of:l;m argv:- exp:reject mut:break-handler-constraint')
